@@ -165,6 +165,8 @@ def run(tier, seed, t0):
     allc = list(cases(tier))
     core.check_deterministic(judge, allc[len(allc) // 3])
     st = core.pmap(_work, core.chunks(allc, 2000))
+    # the same cases under other interpreter configurations (-O, -OO, -W error, -X dev)
+    core.interpreter_modes("C15", allc[:: max(1, len(allc) // 300)], st)
     # history sweeps in ONE process: the same headers again in other orders, so that a lookup
     # memoised under too coarse a key (first-seen wins) meets its colliding partner
     fp = bytes((37 * i + 11) & 0xFF for i in range(9))
